@@ -437,7 +437,7 @@ fn pinned_cases(ctx: &mut Ctx, acc: &mut Acc, c05: bool, c06: bool) {
         // D4: constructor index beyond the declaration
         ("DeepEnum", vec![0x00, 0x09]),
         ("DeepEnum", vec![0x00, 0xff, 0xff, 0xff, 0xff, 0x0f]),
-        // a name removed and re-added: data of the version in between (header: chunk 0 of 4 bytes, `x` removed)
+        // a name removed and re-added: data of the version in between (header: chunk 0 of 4 bytes, `x` removed) reads with the default
         ("ReusedName", vec![0x01, 0x08, 0x03, 0x02, b'x', 0, 0, 0, 5]),
         ("ReusedNameOpt", vec![0x01, 0x08, 0x03, 0x02, b'x', 0, 0, 0, 5]),
         // … and of the version before the removal
